@@ -1,9 +1,479 @@
-// Package c13: check for property C13 (stub until implemented).
+// Package c13: MtA turns a product of secrets into additive shares of that product (ENUM).
+//
+// Enumerated space
+//
+//	(a,b) in {0,1,2,q-2,q-1,generic,generic'}^2 (b != 0 for the check variant: 0*G is the identity, which
+//	the library's ECPoint cannot represent on secp256k1 — inadmissible input, DESIGN §3a)
+//	x ordered pairs (i,j) of vendored parameter sets (Alice: Paillier key + ring-Pedersen of set i,
+//	  Bob: ring-Pedersen of set j); 4 pairs in quick, all 25 in thorough
+//	x {MtA, MtAwc}.
+//	Every run: alpha+beta == a*b (mod q) with independent big.Int arithmetic, no error from any step.
+//	Every MtAwc run: Alice must reject B' = (b+1)*G (both with Bob's honest proof and with a proof Bob
+//	  built for B').
+//	Every run x tamper alphabet: cA in {+1, *2 mod N^2, another session's cA, 0} -> BobMid[WC] must
+//	  return an error; cB in {+1, *2 mod N^2, another session's cB, 0} -> AliceEnd[WC] must return an error.
 package c13
 
-import "verif/internal/core"
+import (
+	"fmt"
+	"math/big"
+	"runtime"
+	"runtime/debug"
+	"strings"
+	"sync/atomic"
+	"time"
 
-// Implemented reports whether this check is built.
-const Implemented = false
+	"github.com/bnb-chain/tss-lib/v2/crypto"
+	"github.com/bnb-chain/tss-lib/v2/crypto/mta"
+	"github.com/bnb-chain/tss-lib/v2/crypto/paillier"
+	"github.com/bnb-chain/tss-lib/v2/tss"
 
-func Run(r *core.Run) { r.Cap("not implemented") }
+	"verif/internal/core"
+	"verif/internal/fix"
+	"verif/internal/ref"
+)
+
+const Implemented = true
+
+type params struct {
+	idx        int
+	sk         *paillier.PrivateKey
+	NT, h1, h2 *big.Int
+}
+
+type scalar struct {
+	n string
+	v *big.Int
+}
+
+type run struct {
+	id      int
+	variant string // MtA | MtAwc
+	A, B    *params
+	a, b    scalar
+	session []byte
+	name    string
+
+	cA    *big.Int
+	pfA   *mta.RangeProofAlice
+	cB    *big.Int
+	piB   *mta.ProofBob
+	piBwc *mta.ProofBobWC
+	pt    *crypto.ECPoint // b*G (MtAwc)
+	done  bool            // all honest steps succeeded
+}
+
+func try(f func()) (pan string) {
+	defer func() {
+		if e := recover(); e != nil {
+			pan = fmt.Sprint(e) + site(debug.Stack())
+		}
+	}()
+	f()
+	return ""
+}
+
+// site: the innermost library frame of a panic stack ("file.go:line").
+func site(stack []byte) string {
+	for _, ln := range strings.Split(string(stack), "\n") {
+		ln = strings.TrimSpace(ln)
+		if i := strings.Index(ln, "/crypto/"); i >= 0 && strings.Contains(ln, ".go:") && !strings.Contains(ln, "/verif/") {
+			if j := strings.Index(ln, " +0x"); j > 0 {
+				ln = ln[:j]
+			}
+			return " @" + ln[i+1:]
+		}
+	}
+	return ""
+}
+
+func str(b *big.Int) string {
+	if b == nil {
+		return "<nil>"
+	}
+	return b.String()
+}
+
+func (x *run) record(kv ...interface{}) map[string]string {
+	m := map[string]string{
+		"variant": x.variant, "alice_param_set": fmt.Sprint(x.A.idx), "bob_param_set": fmt.Sprint(x.B.idx),
+		"a_class": x.a.n, "b_class": x.b.n, "a": str(x.a.v), "b": str(x.b.v), "session": string(x.session),
+		"drbg_label": "c13/run/" + x.name,
+	}
+	for i := 0; i+1 < len(kv); i += 2 {
+		if b, ok := kv[i+1].(*big.Int); ok {
+			m[kv[i].(string)] = str(b)
+		} else {
+			m[kv[i].(string)] = fmt.Sprint(kv[i+1])
+		}
+	}
+	return m
+}
+
+func pointOf(k *big.Int) (*crypto.ECPoint, error) {
+	p := ref.Secp256k1.BaseMul(k)
+	return crypto.NewECPoint(tss.S256(), p.X, p.Y)
+}
+
+type chk struct {
+	r     *core.Run
+	q     *big.Int
+	evals int64
+}
+
+// bob runs Bob's step of the right variant on (possibly altered) cA with the given public point.
+func (c *chk) bob(x *run, cA *big.Int, pt *crypto.ECPoint, label string) (beta, cB *big.Int, piB *mta.ProofBob, piBwc *mta.ProofBobWC, err error, pan string) {
+	ec := tss.S256()
+	rd := core.NewDRBG("c13/bob/" + x.name + "/" + label)
+	pkA := &x.A.sk.PublicKey
+	pan = try(func() {
+		if x.variant == "MtA" {
+			beta, cB, _, piB, err = mta.BobMid(x.session, ec, pkA, x.pfA, x.b.v, cA, x.A.NT, x.A.h1, x.A.h2, x.B.NT, x.B.h1, x.B.h2, rd)
+		} else {
+			beta, cB, _, piBwc, err = mta.BobMidWC(x.session, ec, pkA, x.pfA, x.b.v, cA, x.A.NT, x.A.h1, x.A.h2, x.B.NT, x.B.h1, x.B.h2, pt, rd)
+		}
+	})
+	return
+}
+
+// alice runs Alice's final step of the right variant on (possibly altered) cB / public point / proof.
+func (c *chk) alice(x *run, cB *big.Int, piB *mta.ProofBob, piBwc *mta.ProofBobWC, pt *crypto.ECPoint) (alpha *big.Int, err error, pan string) {
+	ec := tss.S256()
+	pkA := &x.A.sk.PublicKey
+	pan = try(func() {
+		if x.variant == "MtA" {
+			alpha, err = mta.AliceEnd(x.session, ec, pkA, piB, x.A.h1, x.A.h2, x.cA, cB, x.A.NT, x.A.sk)
+		} else {
+			alpha, err = mta.AliceEndWC(x.session, ec, pkA, piBwc, pt, x.cA, cB, x.A.NT, x.A.h1, x.A.h2, x.A.sk)
+		}
+	})
+	return
+}
+
+func (c *chk) honest(x *run) {
+	r, q := c.r, c.q
+	ec := tss.S256()
+	cls := x.a.n + "*" + x.b.n
+	atomic.AddInt64(&c.evals, 1)
+	canon := fmt.Sprintf("run|%s|A%d|B%d|%s", x.variant, x.A.idx, x.B.idx, cls)
+	r.Distinct("cases", canon)
+	want := new(big.Int).Mul(x.a.v, x.b.v)
+	if want.Cmp(q) >= 0 {
+		r.Count("runs_where_ab_exceeds_q", 1)
+	}
+	want.Mod(want, q)
+	if want.Sign() != 0 {
+		r.Distinct("cases_nontrivial", canon)
+	}
+
+	// Alice, step 1
+	var err error
+	rd := core.NewDRBG("c13/run/" + x.name)
+	if p := try(func() { x.cA, x.pfA, err = mta.AliceInit(ec, &x.A.sk.PublicKey, x.a.v, x.B.NT, x.B.h1, x.B.h2, rd) }); p != "" {
+		r.Violate("honest/"+x.variant+"/AliceInit/"+cls+":panic", "AliceInit panicked: "+p, x.record())
+		return
+	}
+	if err != nil || x.cA == nil || x.pfA == nil {
+		r.Violate("honest/"+x.variant+"/AliceInit/error/"+cls, fmt.Sprintf("AliceInit failed on admissible input: %v", err), x.record())
+		return
+	}
+	// Bob
+	if x.variant == "MtAwc" {
+		if x.pt, err = pointOf(x.b.v); err != nil {
+			r.Violate("infrastructure/reference-point-not-accepted", "b*G computed by the reference curve is refused by NewECPoint: "+err.Error(), x.record())
+			return
+		}
+	}
+	beta, cB, piB, piBwc, err, pan := c.bob(x, x.cA, x.pt, "honest")
+	if pan != "" {
+		r.Violate("honest/"+x.variant+"/Bob/"+cls+":panic", "Bob's step panicked on an honest cA: "+pan, x.record("cA", x.cA))
+		return
+	}
+	if err != nil {
+		r.Violate("honest/"+x.variant+"/Bob/error/"+cls, "Bob's step rejected Alice's honest range proof or failed: "+err.Error(), x.record("cA", x.cA))
+		return
+	}
+	x.cB, x.piB, x.piBwc = cB, piB, piBwc
+	// Alice, step 2
+	alpha, err, pan := c.alice(x, cB, piB, piBwc, x.pt)
+	if pan != "" {
+		r.Violate("honest/"+x.variant+"/AliceEnd/"+cls+":panic", "Alice's final step panicked on an honest cB: "+pan, x.record("cA", x.cA, "cB", cB))
+		return
+	}
+	if err != nil {
+		r.Violate("honest/"+x.variant+"/AliceEnd/error/"+cls, "Alice's final step rejected Bob's honest proof or failed: "+err.Error(), x.record("cA", x.cA, "cB", cB))
+		return
+	}
+	if alpha == nil || beta == nil {
+		r.Violate("honest/"+x.variant+"/nil-share/"+cls, "a share is nil although no error was returned", x.record())
+		return
+	}
+	sum := new(big.Int).Add(alpha, beta)
+	sum.Mod(sum, q)
+	if sum.Cmp(want) != 0 {
+		r.Violate("share/"+x.variant+"/alpha-plus-beta-not-ab/"+cls, "alpha + beta != a*b (mod q)",
+			x.record("alpha", alpha, "beta", beta, "alpha+beta mod q", sum, "a*b mod q", want))
+		return
+	}
+	x.done = true
+	r.Count("honest_runs_ok", 1)
+	r.Distinct("alpha_values", fmt.Sprintf("%x", alpha.Bytes()))
+	if x.id%97 == 0 {
+		r.Sample(6, map[string]string{"case": canon, "a": str(x.a.v), "b": str(x.b.v), "alpha": str(alpha), "beta": str(beta), "a*b mod q": str(want)})
+	}
+
+	// MtAwc: a wrong public point must be rejected
+	if x.variant == "MtAwc" {
+		b1 := new(big.Int).Add(x.b.v, big.NewInt(1))
+		b1.Mod(b1, q)
+		if b1.Sign() == 0 {
+			b1.SetInt64(1) // b = q-1: (b+1)*G is the identity; use 1*G (still != b*G)
+		}
+		wrong, err := pointOf(b1)
+		if err != nil {
+			r.Violate("infrastructure/reference-point-not-accepted", "(b+1)*G computed by the reference curve is refused by NewECPoint: "+err.Error(), x.record())
+			return
+		}
+		// (i) Bob's honest proof, Alice told the wrong point
+		atomic.AddInt64(&c.evals, 1)
+		cs := fmt.Sprintf("wrong-point/honest-proof|A%d|B%d|%s", x.A.idx, x.B.idx, cls)
+		r.Distinct("cases", cs)
+		r.Distinct("cases_nontrivial", cs)
+		al, err, pan := c.alice(x, cB, nil, piBwc, wrong)
+		switch {
+		case pan != "":
+			r.Violate("wc/wrong-public-point/honest-proof/AliceEndWC:panic", "AliceEndWC panicked: "+pan, x.record("Bx", wrong.X(), "By", wrong.Y()))
+		case err == nil:
+			r.Violate("wc/wrong-public-point/honest-proof/accepted", "AliceEndWC accepted a public point different from b*G", x.record("Bx", wrong.X(), "By", wrong.Y(), "alpha", al))
+		default:
+			r.Count("wrong_point_rejected", 1)
+		}
+		// (ii) Bob builds his proof for the wrong point
+		atomic.AddInt64(&c.evals, 1)
+		cs = fmt.Sprintf("wrong-point/proof-for-wrong-point|A%d|B%d|%s", x.A.idx, x.B.idx, cls)
+		r.Distinct("cases", cs)
+		r.Distinct("cases_nontrivial", cs)
+		_, cB2, _, piB2, err, pan := c.bob(x, x.cA, wrong, "wrong-point")
+		switch {
+		case pan != "":
+			r.Violate("wc/wrong-public-point/proof-for-wrong-point/BobMidWC:panic", "BobMidWC panicked: "+pan, x.record("Bx", wrong.X(), "By", wrong.Y()))
+		case err != nil:
+			r.Count("wrong_point_rejected", 1) // the prover itself refused: also a rejection
+		default:
+			al, err, pan := c.alice(x, cB2, nil, piB2, wrong)
+			switch {
+			case pan != "":
+				r.Violate("wc/wrong-public-point/proof-for-wrong-point/AliceEndWC:panic", "AliceEndWC panicked: "+pan, x.record("Bx", wrong.X(), "By", wrong.Y()))
+			case err == nil:
+				r.Violate("wc/wrong-public-point/proof-for-wrong-point/accepted", "AliceEndWC accepted a proof and public point for (b+1)*G while cB was computed with b",
+					x.record("Bx", wrong.X(), "By", wrong.Y(), "alpha", al))
+			default:
+				r.Count("wrong_point_rejected", 1)
+			}
+		}
+	}
+}
+
+type tamper struct {
+	n string
+	f func(c, other, N2 *big.Int) *big.Int
+}
+
+var tampers = []tamper{
+	{"plus-1", func(c, _, _ *big.Int) *big.Int { return new(big.Int).Add(c, big.NewInt(1)) }},
+	{"times-2-mod-N2", func(c, _, N2 *big.Int) *big.Int { v := new(big.Int).Lsh(c, 1); return v.Mod(v, N2) }},
+	{"other-session", func(_, o, _ *big.Int) *big.Int { return new(big.Int).Set(o) }},
+	{"zero", func(_, _, _ *big.Int) *big.Int { return big.NewInt(0) }},
+}
+
+// tamperOne: which = "cA" (receiver Bob) or "cB" (receiver Alice).
+func (c *chk) tamperOne(x, other *run, which string, t tamper) {
+	r := c.r
+	N2 := x.A.sk.PublicKey.NSquare()
+	cls := x.a.n + "*" + x.b.n
+	cs := fmt.Sprintf("tamper|%s|%s|%s|A%d|B%d|%s", which, t.n, x.variant, x.A.idx, x.B.idx, cls)
+	if which == "cA" {
+		alt := t.f(x.cA, other.cA, N2)
+		if alt.Cmp(x.cA) == 0 {
+			r.Count("tamper_skipped_equal_value", 1)
+			return
+		}
+		atomic.AddInt64(&c.evals, 1)
+		r.Distinct("cases", cs)
+		r.Distinct("cases_nontrivial", cs)
+		beta, cB, _, _, err, pan := c.bob(x, alt, x.pt, "tamper-"+t.n)
+		switch {
+		case pan != "":
+			r.Violate("tamper/cA/"+t.n+"/"+x.variant+"/receiver-Bob:panic", "Bob's step panicked on an altered cA instead of returning an error: "+pan,
+				x.record("cA", x.cA, "cA_altered", alt))
+		case err == nil:
+			r.Violate("tamper/cA/"+t.n+"/"+x.variant+"/receiver-Bob/accepted", "Bob's step produced a share for an altered cA (Alice's range proof no longer matches)",
+				x.record("cA", x.cA, "cA_altered", alt, "beta", beta, "cB", cB))
+		default:
+			r.Count("tamper_rejected", 1)
+			r.Distinct("tamper_reject_reasons", which+"/"+err.Error())
+		}
+		return
+	}
+	alt := t.f(x.cB, other.cB, N2)
+	if alt.Cmp(x.cB) == 0 {
+		r.Count("tamper_skipped_equal_value", 1)
+		return
+	}
+	atomic.AddInt64(&c.evals, 1)
+	r.Distinct("cases", cs)
+	r.Distinct("cases_nontrivial", cs)
+	alpha, err, pan := c.alice(x, alt, x.piB, x.piBwc, x.pt)
+	switch {
+	case pan != "":
+		r.Violate("tamper/cB/"+t.n+"/"+x.variant+"/receiver-Alice:panic", "Alice's final step panicked on an altered cB instead of returning an error: "+pan,
+			x.record("cB", x.cB, "cB_altered", alt))
+	case err == nil:
+		r.Violate("tamper/cB/"+t.n+"/"+x.variant+"/receiver-Alice/accepted", "Alice's final step produced a share for an altered cB (Bob's proof no longer matches)",
+			x.record("cB", x.cB, "cB_altered", alt, "alpha", alpha))
+	default:
+		r.Count("tamper_rejected", 1)
+		r.Distinct("tamper_reject_reasons", which+"/"+err.Error())
+	}
+}
+
+func Run(r *core.Run) {
+	thorough := r.Tier == "thorough"
+	q := tss.S256().Params().N
+	if q.Cmp(ref.Secp256k1.N) != 0 {
+		r.Violate("infrastructure/curve-order-differs", "tss.S256() order differs from the reference curve", nil)
+		return
+	}
+	c := &chk{r: r, q: q}
+	budget := 85 * time.Second
+	if thorough {
+		budget = 7*time.Minute + 30*time.Second
+	}
+
+	// parameter sets
+	fx := fix.EcFixtures()
+	sets := make([]*params, len(fx))
+	for i, f := range fx {
+		sets[i] = &params{idx: i, sk: f.PaillierSK, NT: f.NTildei, h1: f.H1i, h2: f.H2i}
+	}
+	var pairs [][2]int
+	if thorough {
+		for i := range sets {
+			for j := range sets {
+				pairs = append(pairs, [2]int{i, j}) // 20 ordered pairs of different sets + 5 same-set
+			}
+		}
+	} else {
+		pairs = [][2]int{{0, 1}, {1, 2}, {3, 4}, {4, 0}} // every set appears on some side
+	}
+	r.Set("parameter_pairs", len(pairs))
+
+	// scalar alphabet, simplest first
+	gen := func(label string) *big.Int {
+		g := new(big.Int).SetBytes(core.Bytes("c13/generic/"+label, 48))
+		return g.Mod(g, q)
+	}
+	al := []scalar{
+		{"0", big.NewInt(0)},
+		{"1", big.NewInt(1)},
+		{"2", big.NewInt(2)},
+		{"q-2", new(big.Int).Sub(q, big.NewInt(2))},
+		{"q-1", new(big.Int).Sub(q, big.NewInt(1))},
+		{"generic", gen("a")},
+		{"generic'", gen("b")},
+	}
+
+	// phase 1: honest runs (+ wrong public point for MtAwc)
+	var runs []*run
+	groups := map[string][]*run{}
+	for _, variant := range []string{"MtA", "MtAwc"} {
+		for _, p := range pairs {
+			for _, a := range al {
+				for _, b := range al {
+					if variant == "MtAwc" && b.v.Sign() == 0 {
+						r.Count("skipped_wc_b_zero_inadmissible", 1)
+						continue
+					}
+					x := &run{id: len(runs), variant: variant, A: sets[p[0]], B: sets[p[1]], a: a, b: b}
+					x.name = fmt.Sprintf("%s/A%d/B%d/%s/%s", variant, p[0], p[1], a.n, b.n)
+					x.session = []byte(fmt.Sprintf("c13-session-A%d-B%d", p[0], p[1]))
+					runs = append(runs, x)
+					g := fmt.Sprintf("%s/%d/%d", variant, p[0], p[1])
+					groups[g] = append(groups[g], x)
+				}
+			}
+		}
+	}
+	r.Set("honest_runs_planned", len(runs))
+	var cut int32
+	core.ParallelFor(len(runs), runtime.NumCPU(), func(i int) {
+		if r.Elapsed() > budget {
+			atomic.StoreInt32(&cut, 1)
+			return
+		}
+		c.honest(runs[i])
+	})
+	if cut != 0 {
+		r.Cap("time budget reached during the honest runs; remaining runs and their tamper cases not executed")
+	}
+
+	// phase 2: tamper alphabet on every completed run; "another session" = the next completed run of the same
+	// (variant, parameter pair) group (same keys, same session id, different secrets and randomness)
+	type job struct {
+		x, other *run
+		which    string
+		t        tamper
+	}
+	var jobs []job
+	for _, x := range runs {
+		if !x.done {
+			continue
+		}
+		g := groups[fmt.Sprintf("%s/%d/%d", x.variant, x.A.idx, x.B.idx)]
+		var other *run
+		for k := 1; k < len(g); k++ {
+			cand := g[(indexOf(g, x)+k)%len(g)]
+			if cand.done {
+				other = cand
+				break
+			}
+		}
+		if other == nil {
+			continue
+		}
+		for _, which := range []string{"cA", "cB"} {
+			for _, t := range tampers {
+				jobs = append(jobs, job{x, other, which, t})
+			}
+		}
+	}
+	r.Set("tamper_cases_planned", len(jobs))
+	cut = 0
+	core.ParallelFor(len(jobs), runtime.NumCPU(), func(i int) {
+		if r.Elapsed() > budget {
+			atomic.StoreInt32(&cut, 1)
+			return
+		}
+		j := jobs[i]
+		c.tamperOne(j.x, j.other, j.which, j.t)
+	})
+	if cut != 0 {
+		r.Cap("time budget reached during the tamper cases")
+	}
+
+	r.Assume("b = 0 is not fed to the check variant: b*G is the identity, which ECPoint cannot represent on secp256k1 (inadmissible input); the plain variant is run with b = 0")
+	r.Assume("'another session' for the swap alteration = the next run of the same variant and parameter pair (same keys and session id, other secrets and randomness)")
+	r.Set("evaluations", int(atomic.LoadInt64(&c.evals)))
+	r.Set("distinct_nontrivial", r.NDistinct("cases_nontrivial"))
+	r.Set("rule", "one case = (variant, Alice set, Bob set, a class, b class) honest run, or that plus a wrong public point, or that plus (altered ciphertext, alteration); "+
+		"cases are collected as canonical strings in a set; non-trivial = a*b mod q != 0 for honest runs, every wrong-point and tamper case")
+}
+
+func indexOf(g []*run, x *run) int {
+	for i, y := range g {
+		if y == x {
+			return i
+		}
+	}
+	return 0
+}
